@@ -30,6 +30,25 @@ func main() {
 		}
 		fmt.Println("hooks H3 missing")
 		os.Exit(3)
+	case "sameid":
+		fs := flag.NewFlagSet("sameid", flag.ExitOnError)
+		pf := fs.String("plan", "", "plan file")
+		_ = fs.Parse(os.Args[2:])
+		bz, err := os.ReadFile(*pf)
+		if err != nil {
+			fmt.Fprintln(os.Stderr, err)
+			os.Exit(2)
+		}
+		var p conc.SameIDPlan
+		if err := json.Unmarshal(bz, &p); err != nil {
+			fmt.Fprintln(os.Stderr, err)
+			os.Exit(2)
+		}
+		if err := conc.RunSameID(&p); err != nil {
+			fmt.Fprintln(os.Stderr, "harness error:", err)
+			os.Exit(2)
+		}
+		os.Exit(0)
 	case "buslock":
 		fs := flag.NewFlagSet("buslock", flag.ExitOnError)
 		pf := fs.String("plan", "", "plan file")
